@@ -484,7 +484,10 @@ def gen_timeout(rng, world=None, audit=None):
                 idx = nxt.get((s, d), 0) + 1
                 nxt[(s, d)] = idx
                 issued.setdefault((s, d, h), []).append(idx)
-                ops.append([1, s, d, idx, T, 0, 0, 1])
+                if rng.random() < 0.06:
+                    ops.append([1, s, d, idx, T, 1, 0, 1])     # Group present but without keys (a one-child group of declared size 0)
+                else:
+                    ops.append([1, s, d, idx, T, 0, 0, 1])
             else:
                 _, s, d, kind, H = e
                 lst = issued.get((s, d, H))
@@ -767,6 +770,29 @@ def gen_colliding_groups(rng, world=None, audit=None):
     h = mk_history(world, blocks, audit=audit)
     h["groups"] = [[src, 1, decl1], [src, 2, decl2]]
     return h
+
+
+W_DASH = dict(svcs=[[0, 1, 1, 1, 1, []],                      # 1 source on A
+                    [0, 2, 1, 1, 1, [], "mychannel-1&transfer"],  # 2 B, Fabric style id containing the id separator
+                    [0, 3, 1, 1, 1, []],                      # 3 C
+                    [0, 2, 1, 1, 1, [], "ch-2&cc-x"],         # 4 B, two separators
+                    [0, 3, 1, 0, 1, []],                      # 5 C frozen
+                    [0, 1, 1, 1, 1, [], "src-svc"],           # 6 A, a SOURCE whose name contains the separator
+                    [0, 4, 1, 1, 1, []]],                     # 7 D
+              hubs=[])
+WORLDS["dash"] = W_DASH
+
+
+def gen_dash(rng):
+    """one-to-one traffic (timeouts, shared expiry heights) between services whose ids contain '-' (never used as
+    members of a group: ParseIBTPID of the unmodified code rejects such child ids)"""
+    h = gen_timeout(rng, W_DASH) if rng.random() < 0.5 else gen_shared_expiry(rng, W_DASH)
+    for b in h["blocks"]:
+        if b != 0:
+            for op in b:
+                if op[0] == 2 and len(op) == 8:
+                    del op[6:]               # no Group field on receipts here
+    return finish_history(h)
 
 
 def gen_hub(rng, world=None, audit=None):
